@@ -1072,7 +1072,7 @@ def replay(path):
         def case(self, *a):
             pass
     rec = Recorder(Dummy())
-    scratch = tlc.make_scratch()
+    scratch = tlc.make_scratch("replay")
     try:
         if "recorded_from_repository_test" in how:
             Dummy.scratch = scratch
